@@ -626,3 +626,69 @@ def replay(payload):
     r = subset_sweep(payload.get("tier", "quick"), 0)
     hit = [v for v in r["violations"] if v["key"] == payload["key"]]
     return {"reproduced": bool(hit), "detail": hit[0]["solver"] if hit else "agrees with CPython on the whole bound"}
+
+
+# ---- (9) tuple and list displays with starred elements (`(*x, 3)`, `[1, *x, *y]`): the sequence CPython builds ------------------
+SEQ_DISPLAYS = ["(*x, 3)", "(1, *x)", "(*x, *y)", "(0, *x, 9, *y)", "(*x,)", "(1, 2)", "()", "[*x, 3]", "[1, *x, *y]", "[*x]", "[]"]
+SEQ_ENV = {"x": (10, 20), "y": [30]}
+for src in SEQ_DISPLAYS:
+    node = ast.parse(src, mode="eval").body
+
+    def seq_spec(sx, self, inp, src=src):
+        want = eval(src, dict(SEQ_ENV))
+
+        def holds(res):
+            got = res.fields.get("f_value") if isinstance(res, SObj) and res.kind is OUT.Value else None
+            return type(got) is type(want) and got == want
+
+        return C.Pred(holds, f"the sequence CPython builds: {want!r}")
+
+    def _apply_elt(it, self, n):
+        if isinstance(n, ast.Starred):
+            return SObj(OUT.StarredValue, f_result=eval(compile(ast.Expression(n.value), "<display>", "eval"), dict(SEQ_ENV)), f_bound=[])
+        return SObj(_Expr, f_result=eval(compile(ast.Expression(n), "<display>", "eval"), dict(SEQ_ENV)), f_bound=[])
+
+    c = Case(f"sequence-display:{src}", [SELF, Built([], (lambda n: lambda env: n)(node), lambda a: "<display>", lambda a: None)], seq_spec)
+    c.native = False
+    c.models = [(_Prep.apply, _apply_elt), (OUT.Expression.__dict__["result"], lambda it, self: self.fields["f_result"]), (OUT.Statement.__dict__["bound_statements"], lambda it, self: self.fields["f_bound"])]
+    c.interp_flags = {"class_call_models": {OUT.Value: lambda it, args, kw: SObj(OUT.Value, f_value=args[0], f_bound=args[1])}}
+    con.cases.append(c)
+
+
+_STARRED_TUPLE_PROGRAM = '''
+import cohdl
+from cohdl import std, Entity, Port, Bit
+recorded = []
+@cohdl.pyeval
+def record(v):
+    recorded.append(v)
+def prog():
+    x = (10, 20)
+    assert len((*x, 3)) == 2      # CPython: the tuple has 3 elements, this assertion FAILS
+    return "accepted"
+class Demo(Entity):
+    a = Port.input(Bit)
+    b = Port.output(Bit)
+    def architecture(self):
+        @std.concurrent
+        def logic():
+            record(prog())
+            self.b <<= self.a
+try:
+    std.VhdlCompiler.to_string(Demo)
+    print("VALUE", recorded[0])
+except BaseException as e:
+    print("REJECTED", type(e).__name__)
+'''
+
+
+def replay_starred_tuple(payload):
+    from contracts.c06_extra import _run_design
+
+    rc, out = _run_design(_STARRED_TUPLE_PROGRAM)
+    return {"reproduced": "VALUE accepted" in out, "detail": "`assert len((*x, 3)) == 2` with x = (10, 20) (fails in CPython) inside a function evaluated during compilation: " + out[-80:]}
+
+
+for _c in con.cases:
+    if _c.name.startswith("sequence-display:("):
+        _c.custom_replay = "contracts.c10_subset.replay_starred_tuple"
